@@ -90,12 +90,21 @@ class Exec(ExprMixin, StmtMixin, CallMixin):
         """stop exploring a branch whose quantifier-free path condition is already contradictory (sound: hypotheses are only dropped)"""
         s = z3.Solver()
         s.set('timeout', 400)
+        s.set('rlimit', 3000000)          # deterministic resource bound: the soft timeout alone is ignored in some theory loops
         for f in st.pc:
-            if not self.has_quantifier(f):
+            if not self.has_quantifier(f) and not self.has_recfun(f):
                 s.add(f)
         if s.check() == z3.unsat:
             self.exits['dead-branch'] += 1
             raise PathEnd()
+
+    def has_recfun(self, f):
+        """applications of recursive spec functions are left out of the cheap feasibility checks (unfolding may not terminate)"""
+        cache = self.__dict__.setdefault('_hr', {})
+        k = f.get_id()
+        if k not in cache:
+            cache[k] = 'spec_' in f.sexpr() and any(('spec_' + n) in f.sexpr() for n in self.reg.spec_sorts)
+        return cache[k]
 
     def has_quantifier(self, f):
         cache = self.__dict__.setdefault('_hq', {})
@@ -279,7 +288,7 @@ class Exec(ExprMixin, StmtMixin, CallMixin):
         if frag is not None:          # contract on one loop of the function, from arbitrary values of its live variables
             node = [n for n in ast.walk(fn) if isinstance(n, (ast.For, ast.While)) and self.loop_ordinals[id(n)] == frag['loop']]
             if not node:
-                raise KeyError('%s has no loop %d' % (ct.qual, frag['loop']))
+                raise OutsideSubset('%s has no loop %d any more (fragment contract)' % (ct.qual, frag['loop']))
             self.body = [node[0]]
         self.worklist = [[]]
         while self.worklist:
